@@ -10,6 +10,7 @@ Checks decide which records are violations.
 
 from __future__ import annotations
 
+import unicodedata
 import base64
 import binascii
 import re
@@ -142,6 +143,14 @@ class VTerm:
         attr = self.attr
         touched = self.touched
         for ch in text:
+            if ch >= "\u0300" and unicodedata.combining(ch):
+                # a combining mark occupies no column: it joins the character just written
+                # (the cell under the cursor when a wrap is pending, else the one before it)
+                pc = self.c if self.pw else self.c - 1
+                if pc >= 0:
+                    cell = self.grid[self.r][pc]
+                    self.grid[self.r][pc] = (cell[0] + ch,) + tuple(cell[1:])
+                continue
             if self.pw:
                 self.autowraps += 1
                 self.pw = False
